@@ -9,7 +9,11 @@ C16: client and agents exchange each forwarded message exactly once.
 4. small-scope enumeration (every side x flag x origin marker x channel kind,
    1..3 pilots) and seeded random traffic / delivery orders,
 5. the default fwd flag of the real AgentComponent / ClientComponent.advance,
-6. every recorded trace validated by the ForwardTrace monitor.
+6. the real Session.close(terminate=True) of a client with several real pilot
+   managers: what the closing code publishes with the forward flag must still
+   reach every pilot,
+7. every recorded trace validated by the ForwardTrace monitor (which also
+   demands pairwise distinct side identities, as computed by Session.__init__).
 '''
 
 import os
@@ -35,12 +39,13 @@ MONITOR_CONSTANTS = 'MaxHops = %d' % MAXHOPS
 
 # ------------------------------------------------------------------------------
 def mc_cfg(npilots, nmsgs, devs=(), invs=None, props=(), fair=False, fwdchoice=FWDVALS,
-           sym=False):
+           sym=False, eager=False):
     '''sym: pilots are model values and a symmetry set (safety runs only)'''
     assert not (sym and (fair or props))
     c  = 'CONSTANTS\n'
     c += ' Pilots = {%s}\n' % ', '.join(('p%d' if sym else '"p%d"') % (i + 1) for i in range(npilots))
     c += ' Unknown = {"%s"}\n NMsgs = %d\n MaxHops = %d\n' % (UNKNOWN, nmsgs, MAXHOPS)
+    c += ' EagerApp = %s\n' % ('TRUE' if eager else 'FALSE')
     c += ' FwdChoice = {%s}\n' % ', '.join('"%s"' % f for f in fwdchoice)
     for d in DEVS:
         c += ' %s = %s\n' % (d, 'TRUE' if d in devs else 'FALSE')
@@ -115,7 +120,8 @@ def run_script(npilots, chan, script):
         act, a = st['act'], st['args']
         link = None
         if act == 'Publish':
-            rig.publish(side_name(a[0]), chan, origin=side_name(a[1]), fwd=a[2])
+            o = side_name(a[1])
+            rig.publish(side_name(a[0]), chan, origin=rig.ident.get(o, o), fwd=a[2])
         else:
             if act == 'DeliverApp':
                 link = rig.find_link(chan, 'app', side_name(a[0]), a[1], side_name(a[0]))
@@ -144,7 +150,23 @@ def run_script(npilots, chan, script):
 
 # ------------------------------------------------------------------------------
 def origin_choices(rig, side):
-    return ['absent', side] + [s for s in rig.sides if s != side] + ['pilot.9999']
+    '''absent, own identity, the identity of every other side, a marker naming nobody'''
+    return ['absent', 'own'] + [rig.ident[s] for s in rig.sides if s != side] + ['pilot.9999']
+
+
+def run_close(npilots, groups, seed):
+    '''client session with one real PilotManager per group of pilots; some
+       traffic while everything is up, then the REAL Session.close(terminate=True)'''
+    rng = random.Random(seed)
+    rig = R.FwdRig(npilots)
+    for i, grp in enumerate(groups):
+        rig.add_pmgr('pmgr.%04d' % i, [R.pilot_id(j) for j in grp])
+    for side in rig.sides:
+        rig.publish(side, rng.choice(rig.kinds), origin='absent', fwd='true')
+    rig.drain(rng)
+    rig.close_client(rng)
+    rig.quiet(rig.drain(rng))
+    return rig
 
 
 def run_enum(npilots, side, chan, origin, fwd, order):
@@ -243,7 +265,7 @@ def offending(trace):
             if e['hops'] > MAXHOPS or any(o['hops'] > MAXHOPS for o in e['outs']):
                 out.append(e['id'])
     for i, p in sorted(pubs.items()):
-        fw = p['fwd'] == 'true' and p['origin'] in ('absent', p['side'])
+        fw = p['fwd'] == 'true' and p['origin'] in ('absent', p.get('ident', p['side']))
         for s in trace['sides']:
             if got.get((s, i), 0) != (1 if (fw or s == p['side']) else 0):
                 out.append(i)
@@ -251,11 +273,13 @@ def offending(trace):
 
 
 def classify(trace):
+    if len(set(trace.get('idents', trace['sides']))) < len(trace['sides']):
+        return 'side identities not distinct'
     off = offending(trace)
     if not off:
         return 'any message'
     p = off[0]
-    o = 'absent' if p['origin'] == 'absent' else ('own' if p['origin'] == p['side'] else 'foreign')
+    o = 'absent' if p['origin'] == 'absent' else ('own' if p['origin'] == p.get('ident', p['side']) else 'foreign')
     return 'fwd=%s origin=%s published by %s' % (
         p['fwd'], o, 'client' if p['side'] == R.CLIENT else 'pilot')
 
@@ -274,7 +298,8 @@ def nontrivial_keys(trace):
 def check_traces(chk, items):
     '''items: list of (trace, input); validate with the monitor and report'''
     traces = [t for t, _ in items]
-    res, st = tracecheck.validate('Forward', 'ForwardTrace', MONITOR_CONSTANTS, traces)
+    res, st = tracecheck.validate('Forward', 'ForwardTrace', MONITOR_CONSTANTS, traces,
+                                  max_batch=1500)
     chk.states      += st['states']
     chk.transitions += st['transitions']
     chk.cmds.append(st['cmd'])
@@ -300,35 +325,33 @@ def run(chk, tier, seed):
     rng   = random.Random(seed * 7919 + 16)
 
     # ---- 1. design model, exhaustive -----------------------------------------
-    safety = [(1, 2, False), (2, 2, True), (3, 1, True)]
+    # (pilots, messages, symmetry, eager): runs without symmetry also check liveness;
+    # eager = the sound reduction EagerApp of the model (quick tier: larger instances)
+    plan = [(1, 2, False, False), (2, 1, False, False), (2, 2, True, True), (3, 2, True, True)]
     if not quick:
-        safety += [(2, 2, False), (1, 3, False), (3, 2, True)]
-    for np_, nm, sym in safety:
-        big = (np_, nm) == (3, 2)
+        plan += [(3, 1, False, False), (2, 2, True, False), (2, 2, False, False),
+                 (1, 3, False, False)]
+    for np_, nm, sym, eager in plan:
+        big  = (np_, nm) == (3, 2) and not eager
+        fair = not sym and (np_, nm) != (1, 3)
         try:
             res = tlc.run('Forward', 'Forward', 'MC.cfg', workers=WORKERS,
-                          timeout=330 if big else 1500, extra_files=mc_cfg(np_, nm, sym=sym))
+                          timeout=330 if big else 1500,
+                          extra_files=mc_cfg(np_, nm, sym=sym, fair=fair, eager=eager,
+                                             props=['Termination', 'AllSettledAtRest'] if fair else ()))
         except tlc.TLCError as e:
             if big and 'timeout' in str(e):
                 # the largest instance is a bonus: on a loaded machine it may not fit
                 chk.notes.append('exhaustive run with 3 pilots, 2 messages not finished in 330 s (skipped)')
                 continue
             raise
-        chk.add_tlc(res, 'exhaustive:%dpilots-%dmsgs%s' % (np_, nm, '-sym' if sym else ''))
+        chk.add_tlc(res, 'exhaustive%s:%dpilots-%dmsgs%s%s' % ('+liveness' if fair else '', np_, nm,
+                                                               '-sym' if sym else '',
+                                                               '-eager' if eager else ''))
         if not res.ok:
             raise Machinery('design model Forward violates %s with %d pilots, %d messages '
-                            '(intended design must hold):\n%s'
-                            % (res.violated, np_, nm, res.trace[:3000]))
-    live = [(1, 2), (2, 1)] if quick else [(1, 2), (2, 1), (3, 1), (2, 2)]
-    for np_, nm in live:
-        res = tlc.run('Forward', 'Forward', 'MC.cfg', workers=WORKERS, timeout=1500,
-                      extra_files=mc_cfg(np_, nm, invs=['InvHops'], fair=True,
-                                         props=['Termination', 'AllSettledAtRest']))
-        chk.add_tlc(res, 'liveness:%dpilots-%dmsgs' % (np_, nm))
-        if not res.ok:
-            raise Machinery('design model Forward: some behaviour never comes to rest '
-                            '(%s) with %d pilots, %d messages:\n%s'
-                            % (res.violated, np_, nm, res.trace[:3000]))
+                            '(intended design must hold; temporal = some behaviour never comes '
+                            'to rest):\n%s' % (res.violated, np_, nm, res.trace[:3000]))
     chk.exhaustive = True
 
     # ---- 2. deviation sensitivity ------------------------------------------------
@@ -431,7 +454,15 @@ def run(chk, tier, seed):
                       % d.get('client'),
                       {'rig': 'forward', 'input': {'kind': 'advance'}})
 
-    # ---- 6. the monitor decides -----------------------------------------------------------
+    # ---- 6. forwarded messages published while the client session closes -----------------
+    closes = [(2, [[0], [1]]), (3, [[0], [1], [2]]), (3, [[0, 1], [2]]), (1, [[0]])]
+    for np_, groups in closes:
+        for _ in range(1 if quick else 5):
+            sd  = rng.randrange(10 ** 6)
+            rig = run_close(np_, groups, sd)
+            items.append((rig.trace(), {'kind': 'close', 'npilots': np_, 'groups': groups, 'seed': sd}))
+
+    # ---- 7. the monitor decides -----------------------------------------------------------
     check_traces(chk, items)
     chk.evaluations += len(items)
     if items:
@@ -443,8 +474,10 @@ def run(chk, tier, seed):
         'no order is assumed across pairs (weaker than the single bridge thread of ru.zmq.PubSub)',
         'all forwarders and subscribers are connected before the first message is published '
         '(ZeroMQ drops messages published before a subscription is in place)',
-        'side names are distinct: the client runs with _module = "client" (RP_PILOT_ID unset) '
-        'and every pilot id is unique',
+        'the client application runs with RP_PILOT_ID unset and pilot ids are unique (the '
+        'identities Session.__init__ derives from that are checked to be distinct)',
+        'while the client session closes, what it publishes is delivered before close() goes on '
+        '(a subscriber stopped by then gets nothing); all pilots are still connected',
         'a subscriber callback runs to completion per message (one listener thread per subscriber)',
         'messages published with an origin marker naming another side count as already forwarded '
         '(they stay local), as documented in crosswire_pubsub']
@@ -467,6 +500,8 @@ def replay(chk, obj):
             chk.violation('C16.GotDiffersFromModel', classify(rig.trace()),
                           'replayed behaviour: counts at rest differ from the TLC state',
                           {'rig': 'forward', 'input': inp, 'trace': rig.trace()})
+    elif inp['kind'] == 'close':
+        rig = run_close(inp['npilots'], inp['groups'], inp['seed'])
     elif inp['kind'] == 'enum':
         rig = run_enum(inp['npilots'], inp['side'], inp['chan'], inp['origin'], inp['fwd'],
                        inp['order'])
